@@ -477,34 +477,43 @@ def explore(chk, name, depth, ast_depth, workers, procs):
 
 
 # --------------------------------------------------------------------------------------------- code -> spec
-def _observe(nodes):
+def _observe(stmts):
+    """Worker: each conforming statement and each single-rule violation of it at each position, built on the real DSL."""
     import logging
     logging.disable(logging.INFO)
     from forml.io import dsl
     out = []
-    for node in nodes:
-        try:
-            obj = g.build(node)
-            res = 'ok'
-        except dsl.GrammarError:
-            obj, res = None, 'grammar'
-        except BaseException as exc:  # pylint: disable=broad-except
-            obj, res = None, 'error:' + type(exc).__name__
-        schema, sres, back = [], '', True
-        if obj is not None:
-            back = g.canon(g.project(obj)) == g.canon(node)
-            schema, sres = read_schema(obj)
-        out.append({'res': res, 'schema': schema, 'schema_res': sres, 'roundtrip': back})
+    for stmt in stmts:
+        for label, node in itertools.chain([('conforming', stmt)], ((r, m) for r, _, m in g.violations(stmt))):
+            try:
+                obj = g.build(node)
+                res = 'ok'
+            except dsl.GrammarError:
+                obj, res = None, 'grammar'
+            except BaseException as exc:  # pylint: disable=broad-except
+                obj, res = None, 'error:' + type(exc).__name__
+            schema, sres, back = [], '', True
+            if obj is not None:
+                back = g.canon(g.project(obj)) == g.canon(node)
+                schema, sres = read_schema(obj, has_unnamed_output(node))
+            out.append((label, node, {'res': res, 'schema': schema, 'schema_res': sres, 'roundtrip': back}))
     return out
 
 
-def trace_validate(chk, items, procs, label):
-    """items: [(rule label, ast)].  Build on the real DSL, let TraceStatements.tla judge every observation."""
+def trace_validate(chk, stmts, procs, label):
+    """Build every generator statement and its violations on the real DSL; TraceStatements.tla judges each observation."""
     t0 = time.time()
-    nodes = [a for _, a in items]
-    chunks = [nodes[i:i + 200] for i in range(0, len(nodes), 200)]
+    chunks = [stmts[i:i + 25] for i in range(0, len(stmts), 25)]
     with multiprocessing.get_context('fork').Pool(procs) as pool:
-        observed = list(itertools.chain.from_iterable(pool.map(_observe, chunks, chunksize=1)))
+        produced = list(itertools.chain.from_iterable(pool.map(_observe, chunks, chunksize=1)))
+    seen, items, observed = set(), [], []
+    for lab, node, o in produced:
+        key = g.canon(node)
+        if key not in seen:
+            seen.add(key)
+            items.append((lab, node))
+            observed.append(o)
+    nodes = [a for _, a in items]
     obs = [dict(o, ast=a) for o, a in zip(observed, nodes)]
     t1 = time.time()
     # binding self-test: flip one verdict and corrupt one schema; both must be rejected
@@ -581,22 +590,15 @@ def _show(node):
         return g.canon(node)[:200]
 
 
-def generator_items(chk, rnd):
-    """Conforming generator statements + each single-rule violation at each position."""
+def generator_statements(chk, rnd):
+    """Conforming generator statements (their single-rule violations are derived in the workers)."""
     if chk.quick:
         stmts = g.statements(2, False)
         stmts = stmts[::5] + g.statements(1, False)[1::7][:150] + [g.random_statement(rnd, 3) for _ in range(40)]
     else:
-        stmts = g.statements(2, False) + rnd.sample(g.statements(2, True), 6000)
+        stmts = g.statements(2, False) + rnd.sample(g.statements(2, True), 3000)
         stmts += [g.random_statement(rnd, 3) for _ in range(400)] + [g.random_statement(rnd, 4) for _ in range(200)]
-    seen, items = set(), []
-    for s in stmts:
-        for label, node in itertools.chain([('conforming', s)], ((r, m) for r, _, m in g.violations(s))):
-            key = g.canon(node)
-            if key not in seen:
-                seen.add(key)
-                items.append((label, node))
-    return items
+    return stmts
 
 
 # --------------------------------------------------------------------------------------------- entry points
@@ -611,7 +613,7 @@ def main(chk):
     else:
         explore(chk, 'wide', 3, 3, procs, procs)
         explore(chk, 'core', 5, 5, procs, procs)
-    trace_validate(chk, generator_items(chk, rnd), procs, 'gen')
+    trace_validate(chk, generator_statements(chk, rnd), procs, 'gen')
     # binding self-test of the replay comparison itself: a flipped expected outcome is noticed
     al = alphabet('core')
     _init_worker(al)
